@@ -184,7 +184,9 @@ func (p *ElemPtr) rec() (*Rec, bool) {
 
 // New creates an interpreter.
 func New(p *core.Program) *Interp {
-	return &Interp{Prog: p, Stubs: map[string]func(*Interp, Value, []Value) ([]Value, error){}, Fuel: 100000}
+	in := &Interp{Prog: p, Stubs: map[string]func(*Interp, Value, []Value) ([]Value, error){}, Fuel: 100000}
+	in.InstallStd()
+	return in
 }
 
 // global returns the value of a package-level variable: from Globals, or by
@@ -727,6 +729,26 @@ func (f *frame) stmt(s ast.Stmt) (ctl, error) {
 			}
 		case nil:
 			// nil slice or map: no iterations
+		case int64:
+			// range over an integer: 0 .. n-1
+			if sl > 100000 {
+				return ctlNone, unsup(s.Pos(), "range over a huge integer")
+			}
+			for i := int64(0); i < sl; i++ {
+				keys = append(keys, i)
+				elems = append(elems, i)
+			}
+		case *Seq:
+			// range over an iterator: one variable receives the element (or the key of a Seq2)
+			if sl != nil {
+				if sl.Keys != nil {
+					keys = append(keys, sl.Keys...)
+					elems = append(elems, sl.Elems...)
+				} else {
+					keys = append(keys, sl.Elems...)
+					elems = append(elems, sl.Elems...)
+				}
+			}
 		case string:
 			for i, r := range sl {
 				keys = append(keys, int64(i))
@@ -2248,6 +2270,39 @@ func (f *frame) call(e *ast.CallExpr) ([]Value, error) {
 			if err := evalArgs(); err != nil {
 				return nil, err
 			}
+			if _, isInt := args[0].(int64); !isInt {
+				// floats and strings: natural order
+				bestV := args[0]
+				for _, a := range args[1:] {
+					var less bool
+					switch x := a.(type) {
+					case float64:
+						y, ok := bestV.(float64)
+						if !ok {
+							return nil, unsup(e.Pos(), "%s of mixed values", b.Name())
+						}
+						less = x < y
+						if b.Name() == "max" {
+							less = x > y
+						}
+					case string:
+						y, ok := bestV.(string)
+						if !ok {
+							return nil, unsup(e.Pos(), "%s of mixed values", b.Name())
+						}
+						less = x < y
+						if b.Name() == "max" {
+							less = x > y
+						}
+					default:
+						return nil, unsup(e.Pos(), "%s of %T", b.Name(), a)
+					}
+					if less {
+						bestV = a
+					}
+				}
+				return []Value{bestV}, nil
+			}
 			best, ok := args[0].(int64)
 			if !ok {
 				return nil, unsup(e.Pos(), "%s of non-integers", b.Name())
@@ -2262,6 +2317,31 @@ func (f *frame) call(e *ast.CallExpr) ([]Value, error) {
 				}
 			}
 			return []Value{best}, nil
+		case "clear":
+			if err := evalArgs(); err != nil {
+				return nil, err
+			}
+			switch x := args[0].(type) {
+			case *Map:
+				if x != nil {
+					for k := range x.M {
+						delete(x.M, k)
+						delete(x.Keys, k)
+					}
+				}
+			case *Slice:
+				if x != nil {
+					st, _ := f.info.TypeOf(e.Args[0]).Underlying().(*types.Slice)
+					for i := range *x.Elems {
+						var z Value
+						if st != nil {
+							z, _ = zeroOf(st.Elem())
+						}
+						(*x.Elems)[i] = z
+					}
+				}
+			}
+			return nil, nil
 		case "delete":
 			if err := evalArgs(); err != nil {
 				return nil, err
